@@ -61,8 +61,8 @@ def sketch(rp):
                 "IterMutWrite": f"for (i, (_, x)) in m.iter_mut().enumerate() {{ *x = {v} + i as u32; }}",
                 "ValuesMutWrite": f"for (i, x) in m.values_mut().enumerate() {{ *x = {v} + i as u32; }}",
                 "ChildrenMutWrite": f"for (i, (_, x)) in m.children_mut(&{p}).enumerate() {{ *x = {v} + i as u32; }}",
-                "ViewSet": f"{NAV[min(arg, 7)].format(p=p)}.map(|mut v| v.set({v}));",
-                "ViewRemove": f"{NAV[min(arg, 7)].format(p=p)}.map(|mut v| v.remove());",
+                "ViewSet": (f"{NAV[arg].format(p=p)}.map(|mut v| v.set({v}));" if arg < 8 else f"// view_mut_at(universe key #{arg - 8}) then find_exact(&{p}) then set({v})"),
+                "ViewRemove": (f"{NAV[arg].format(p=p)}.map(|mut v| v.remove());" if arg < 8 else f"// view_mut_at(universe key #{arg - 8}) then find_exact(&{p}) then remove()"),
                 "ViewWrite": f"// write through accessor #{arg} (0 value_mut, 1 prefix_value_mut, 2 iter_mut, 3 values_mut, 4 into_iter) of m.view_mut_at({p})",
                 "CloneSelf": "m = m.clone();", "Recollect": "m = m.into_iter().collect();", "RecollectRev": "m = m.into_iter().collect::<Vec<_>>().into_iter().rev().collect();",
                 "IntoChildrenCollect": f"m = m.into_children(&{p}).collect();",
